@@ -184,9 +184,17 @@ class DataPath:
 
         obj = cls.from_part_specs(*spec_val)
 
+        allowed_suffixes = {
+            member.name.lower()
+            for enum_cls in (DataPathDatumType, DataPathMultiType)
+            for member in enum_cls
+            if member.value
+        }
         for i in spec_key_split[1:]:
             i = DATUM_TYPE_MULTI_TYPE_LOOKUP.get(i, i)
             try:
+                if i not in allowed_suffixes:
+                    raise AttributeError(i)
                 obj = getattr(obj, i)()
             except AttributeError:
                 raise MalformedDataPathSpec(
